@@ -32,7 +32,7 @@ int __real_timerfd_create(int, int);
 
 /* ------------------------------------------------------------------ sink */
 #define MAXT 33
-#define MAXMSG 4096
+#define MAXMSG 65536
 #define MAXOBJ 4096
 typedef struct hmsg_s { int id; int kind; sem_t *sem; char *prog; volatile int finished; } hmsg_t;
 enum { K_USER = 1, K_CTL = 2, K_SENT = 3, K_BCAST = 4 };
@@ -70,7 +70,7 @@ static int tid_now(void) {
 	if (t != NULL) vh_tid = (int)t->thread_num; else vh_tid = __sync_fetch_and_add(&g_ext_ctr, 1);
 	return vh_tid;
 }
-/* object id: -1 NULL, 0..N thread (N = pvt), -2 pool, 1000+id harness message, 5000+k other */
+/* object id: -1 NULL, 0..N thread (N = pvt), -2 pool, 1000+id harness message (id < 90000), 100000+k other */
 static long oid_locked(const void *p) {
 	if (p == NULL) return -1;
 	if (g_tp != NULL) {
@@ -79,9 +79,9 @@ static long oid_locked(const void *p) {
 		if (t >= &g_tp->threads[0] && t <= &g_tp->threads[g_n]) return (long)(t - &g_tp->threads[0]);
 	}
 	if ((const hmsg_t *)p >= &g_msg[0] && (const hmsg_t *)p < &g_msg[MAXMSG]) return 1000 + ((const hmsg_t *)p)->id;
-	for (int i = 0; i < g_nobj; i++) if (g_obj[i] == p) return 5000 + i;
-	if (g_nobj < MAXOBJ) { g_obj[g_nobj] = p; return 5000 + g_nobj++; }
-	return 9999;
+	for (int i = 0; i < g_nobj; i++) if (g_obj[i] == p) return 100000 + i;
+	if (g_nobj < MAXOBJ) { g_obj[g_nobj] = p; return 100000 + g_nobj++; }
+	return 199999;
 }
 static void user_cb(tpt_p tpt, void *udata);
 static void ctl_cb(tpt_p tpt, void *udata);
@@ -474,14 +474,14 @@ static void exec_line(const char *actor, char *line) {
 		sscanf(args, "%d %d", &a, &b);
 		hmsg_t *m = msg_get(b, K_BCAST);
 		size_t sent = 777, err = 777;
-		LOGEV("\"e\":\"call.bsend\",\"m\":%d,\"f\":%d", b, a);
+		LOGEV("\"e\":\"call.bsend\",\"m\":%d,\"f\":%d,\"nthr\":%zu", b, a, g_n);
 		int rc = tpt_msg_bsend_ex(g_tp, NULL, (uint32_t)a, bcast_cb, m, &sent, &err);
 		LOGEV("\"e\":\"ret.bsend\",\"m\":%d,\"rc\":%d,\"sent\":%zu,\"err\":%zu", b, rc, sent, err);
 	} else if (!strcmp(op, "cbsend")) { /* cbsend flags id [gate to post when done] */
 		c = -1; sscanf(args, "%d %d %d", &a, &b, &c);
 		hmsg_t *m = msg_get(b, K_BCAST);
 		m->sem = (c >= 0) ? &g_gate[c] : NULL;
-		LOGEV("\"e\":\"call.cbsend\",\"m\":%d,\"f\":%d", b, a);
+		LOGEV("\"e\":\"call.cbsend\",\"m\":%d,\"f\":%d,\"nthr\":%zu", b, a, g_n);
 		int rc = tpt_msg_cbsend(g_tp, NULL, (uint32_t)a, bcast_cb, m, done_cb);
 		LOGEV("\"e\":\"ret.cbsend\",\"m\":%d,\"rc\":%d", b, rc);
 		if (rc != 0 && m->sem) sem_post(m->sem);
